@@ -199,6 +199,9 @@ func (env *SpecEnv) eval(e *Expr) *Value {
 			}
 			pats = append(pats, pt)
 		}
+		if len(pats) == 0 {
+			pats = autoPatterns(bound, body)
+		}
 		if e.Op == "forall" {
 			return scalar(tBool, Forall(bound, Implies(And(ranges...), body), pats...))
 		}
@@ -588,6 +591,10 @@ func (env *SpecEnv) call(e *Expr) *Value {
 			return scalar(tInt, Ite(Eq(v.Term, x.null()), IntLit(0), x.mapLen(env.cur, v.T, v.Term)))
 		}
 		specFail("len of %s", args[0])
+	case "hasPrefix":
+		return scalar(tBool, x.hasPrefixTerm(env.eval(args[0]).Term, env.eval(args[1]).Term))
+	case "hasSuffix":
+		return scalar(tBool, x.hasSuffixTerm(env.eval(args[0]).Term, env.eval(args[1]).Term))
 	case "substr":
 		return scalar(tStr, x.substr(env.eval(args[0]).Term, env.eval(args[1]).Term, env.eval(args[2]).Term))
 	case "str":
@@ -605,6 +612,41 @@ func (env *SpecEnv) call(e *Expr) *Value {
 	case "seen":
 		n := mustInt(args[0])
 		return env.loopSeen(n)
+	case "called":
+		n := exprTypeName(args[0])
+		if args[0].Op == "str" {
+			n = args[0].Name
+		}
+		c, ok := x.calledCells[n]
+		if !ok {
+			specFail("called(%s): not tracked", n)
+		}
+		v, ok := env.cur.cells[c]
+		if !ok {
+			return scalar(tBool, False)
+		}
+		return v
+	case "ret":
+		n := exprTypeName(args[0])
+		if args[0].Op == "str" {
+			n = args[0].Name
+		}
+		c, ok := x.retCells[n]
+		if !ok {
+			specFail("ret(%s): not tracked", n)
+		}
+		v, ok := env.cur.cells[c]
+		if !ok {
+			specFail("ret(%s): callee not called on every path to this point (guard with called(%s))", n, n)
+		}
+		if len(args) > 1 {
+			k := mustInt(args[1])
+			if v.K != KTuple || k >= len(v.Fields) {
+				specFail("ret(%s, %d): no such result", n, k)
+			}
+			return v.Fields[k]
+		}
+		return v
 	case "typeOf":
 		v := env.eval(args[0])
 		if v.K != KIface {
@@ -665,7 +707,53 @@ func (env *SpecEnv) call(e *Expr) *Value {
 		// macros see only their parameters (plus state)
 		n := *env
 		n.vars = vars
-		return n.eval(sf.Body)
+		if r := env.namedSpecFun(sf, vars); r != nil {
+			return r
+		}
+		if !exprHasQuantifier(sf.Body, x.db) {
+			return n.eval(sf.Body)
+		}
+		// quantified macros are named: f(args, heap) with a ground defining fact, so that
+		// congruence can relate two uses without looking inside the quantifier
+		saved := x.heapReads
+		x.heapReads = []heapRead{}
+		body := n.eval(sf.Body)
+		reads := x.heapReads
+		x.heapReads = saved
+		if saved != nil {
+			x.heapReads = append(x.heapReads, reads...)
+		}
+		if body.K != KScalar {
+			return body
+		}
+		var ts []*Term
+		for _, p := range sf.Params {
+			v := vars[p]
+			if isNilConst(v) || (v.K == KFunc && v.Term == nil) {
+				continue
+			}
+			ts = append(ts, leafTerms(v)...)
+		}
+		seen := map[string]bool{}
+		for _, r := range reads {
+			t := x.heapArr(r.st, r.key, x.heapSort[r.key])
+			if !seen[t.String()] {
+				seen[t.String()] = true
+				ts = append(ts, t)
+			}
+		}
+		for _, t := range ts {
+			if termHasBoundVar(t) {
+				return body
+			}
+		}
+		var sig []string
+		for _, t := range ts {
+			sig = append(sig, t.Sort.String())
+		}
+		app := x.ctx.App(fmt.Sprintf("of$%s$%x", name, hashString(strings.Join(sig, ","))), body.Term.Sort, ts...)
+		x.facts = append(x.facts, Eq(app, body.Term))
+		return scalar(body.T, app)
 	}
 	if uf, ok := x.db.UFuns[name]; ok {
 		var ts []*Term
@@ -877,4 +965,229 @@ func (env *SpecEnv) loopSeen(n int) *Value {
 
 func constToValue(x *Exec, c constant.Value, t types.Type) *Value {
 	return x.constValue(ssa.NewConst(c, t))
+}
+
+func exprHasQuantifier(e *Expr, db *SpecDB) bool {
+	if e == nil {
+		return false
+	}
+	if e.Op == "forall" || e.Op == "exists" {
+		return true
+	}
+	if e.Op == "call" && e.Args[0].Op == "ident" {
+		if sf, ok := db.Funs[e.Args[0].Name]; ok && exprHasQuantifier(sf.Body, db) {
+			return true
+		}
+	}
+	for _, a := range e.Args {
+		if exprHasQuantifier(a, db) {
+			return true
+		}
+	}
+	return false
+}
+
+func termHasBoundVar(t *Term) bool {
+	if t.Op == "var" {
+		return true
+	}
+	for _, a := range t.Args {
+		if termHasBoundVar(a) {
+			return true
+		}
+	}
+	return false
+}
+
+// namedSpecFun: a macro over scalar arguments whose body does not read the heap becomes an
+// uninterpreted function with a (pattern-guarded) definitional axiom; uses are applications.
+// Returns nil when the macro does not qualify.
+func (env *SpecEnv) namedSpecFun(sf *SpecFun, vars map[string]*Value) *Value {
+	x := env.x
+	var args []*Term
+	var sig []string
+	for _, p := range sf.Params {
+		v := vars[p]
+		if v.K != KScalar || v.Term == nil || v.T == nil || isNilConst(v) {
+			return nil
+		}
+		args = append(args, v.Term)
+		sig = append(sig, v.Term.Sort.String())
+	}
+	if len(args) == 0 {
+		return nil
+	}
+	key := sf.Name + "(" + strings.Join(sig, ",") + ")"
+	info, done := x.namedFuns[key]
+	if !done {
+		info = &namedFun{}
+		x.namedFuns[key] = info
+		// evaluate the body once on bound variables
+		bvars := map[string]*Value{}
+		var bound []*Term
+		for i, p := range sf.Params {
+			bv := BoundVar("a_"+p, args[i].Sort)
+			bound = append(bound, bv)
+			bvars[p] = scalar(vars[p].T, bv)
+		}
+		saved := x.heapReads
+		x.heapReads = []heapRead{}
+		nf := len(x.facts)
+		n := *env
+		n.vars = bvars
+		n.fr = nil
+		n.at = nil
+		var body *Value
+		ok := func() (ok bool) {
+			defer func() {
+				if r := recover(); r != nil {
+					if _, isSpec := r.(specErr); isSpec {
+						ok = false
+						return
+					}
+					panic(r)
+				}
+			}()
+			body = n.eval(sf.Body)
+			return true
+		}()
+		reads := x.heapReads
+		x.heapReads = saved
+		// facts produced while evaluating on bound variables would mention them: not usable
+		leaked := false
+		for _, f := range x.facts[nf:] {
+			if termHasBoundVar(f) {
+				leaked = true
+			}
+		}
+		if leaked {
+			x.facts = x.facts[:nf]
+		}
+		if !ok || leaked || len(reads) > 0 || body == nil || body.K != KScalar || body.T == nil {
+			info.bad = true
+		} else {
+			info.name = fmt.Sprintf("sf$%s$%x", sf.Name, hashString(key))
+			info.res = body.Term.Sort
+			info.resT = body.T
+			app := x.ctx.App(info.name, info.res, bound...)
+			x.perm = append(x.perm, Forall(bound, Eq(app, body.Term), []*Term{app}))
+		}
+	}
+	if info.bad {
+		return nil
+	}
+	return scalar(info.resT, x.ctx.App(info.name, info.res, args...))
+}
+
+type namedFun struct {
+	bad  bool
+	name string
+	res  *Sort
+	resT types.Type
+}
+
+// autoPatterns chooses E-matching triggers for a quantifier: the minimal select / uninterpreted
+// applications that mention the bound variables (z3's own inference tends to pick the enclosing
+// predicate application, for which no ground instance exists).
+func autoPatterns(bound []*Term, body *Term) [][]*Term {
+	names := map[string]bool{}
+	for _, b := range bound {
+		names[b.Name] = true
+	}
+	varsOf := func(t *Term) map[string]bool {
+		m := map[string]bool{}
+		var w func(t *Term)
+		w = func(t *Term) {
+			if t.Op == "var" && names[t.Name] {
+				m[t.Name] = true
+			}
+			for _, a := range t.Args {
+				w(a)
+			}
+		}
+		w(t)
+		return m
+	}
+	type cand struct {
+		t    *Term
+		vars map[string]bool
+	}
+	var cands []cand
+	seen := map[string]bool{}
+	var walk func(t *Term) bool // returns true if a candidate was found inside t
+	walk = func(t *Term) bool {
+		if t.Op == "forall" || t.Op == "exists" {
+			return false
+		}
+		found := false
+		for _, a := range t.Args {
+			if walk(a) {
+				found = true
+			}
+		}
+		if t.Op == "select" || t.Op == "app" {
+			vs := varsOf(t)
+			if len(vs) > 0 {
+				// minimal: no candidate below covers the same variables
+				covered := false
+				for _, c := range cands {
+					if isSubterm(c.t, t) && len(c.vars) == len(vs) {
+						covered = true
+					}
+				}
+				if !covered && !seen[t.String()] {
+					seen[t.String()] = true
+					cands = append(cands, cand{t, vs})
+				}
+				return true
+			}
+		}
+		return found
+	}
+	walk(body)
+	var full [][]*Term
+	for _, c := range cands {
+		if len(c.vars) == len(bound) {
+			full = append(full, []*Term{c.t})
+		}
+	}
+	if len(full) > 0 {
+		if len(full) > 4 {
+			full = full[:4]
+		}
+		return full
+	}
+	// combine partial candidates into one multi-pattern
+	covered := map[string]bool{}
+	var multi []*Term
+	for _, c := range cands {
+		adds := false
+		for v := range c.vars {
+			if !covered[v] {
+				adds = true
+			}
+		}
+		if adds {
+			multi = append(multi, c.t)
+			for v := range c.vars {
+				covered[v] = true
+			}
+		}
+	}
+	if len(covered) == len(bound) && len(multi) > 0 {
+		return [][]*Term{multi}
+	}
+	return nil
+}
+
+func isSubterm(sub, t *Term) bool {
+	if sub == t || sub.String() == t.String() {
+		return true
+	}
+	for _, a := range t.Args {
+		if isSubterm(sub, a) {
+			return true
+		}
+	}
+	return false
 }
